@@ -159,9 +159,9 @@ fn list_current_history(sh: &Shell, conn: &Conn,
     }
 
     if opt.asc {
-        sql = format!("{} ORDER BY tsb", sql);
+        sql = format!("{} ORDER BY tsb, rowid", sql);
     } else {
-        sql = format!("{} order by tsb desc", sql);
+        sql = format!("{} order by tsb desc, rowid desc", sql);
     };
     sql = format!("{} limit {} ", sql, opt.limit);
 
